@@ -2,8 +2,12 @@
 import re
 from core import Property
 
-NAMES = [b'a', b'bb', b'x-custom-name', b'accept', b':method', b'cookie', b'content-type', b'n' * 40, b':path', b'x-c']
-VALUES = [b'', b'1', b'22', b'GET', b'*/*', b'text/plain', b'v' * 20, b'w' * 70, b'/', b'/index.html']
+NAMES = [b'a', b'bb', b'x-custom-name', b'accept', b':method', b'cookie', b'content-type', b'n' * 40, b':path', b'x-c',
+         # static names whose index needs a continuation byte in a 6-bit prefix, a name whose length does, and near-misses of static rows
+         b'user-agent', b'authorization', b'origin', b'server', b'accept-language', b'q' * 64,
+         b'Accept', b'ACCEPT', b'accept ', b'accep', b':Method', b'User-Agent', b'\xe9tag', b'cookie\x80', b'content-typ', b':paths']
+VALUES = [b'', b'1', b'22', b'GET', b'*/*', b'text/plain', b'v' * 20, b'w' * 70, b'/', b'/index.html',
+          b'v' * 200, b'get', b'GET ', b'\xff\x00\x80', b'Text/Plain', b'*/* ', b'0', b'/ ']
 CAPS = [0, 1, 31, 32, 33, 34, 40, 63, 64, 66, 70, 96, 100, 128, 160, 200, 256, 300, 512, 1024, 2048, 4095, 4096]
 BLOCKED = [0, 1, 2, 3, 5, 10, 100]
 
@@ -166,6 +170,120 @@ def gen_ahead(rng):
     return 'qs %d 100 %s' % (cap, ','.join(ops))
 
 
+def gen_big(rng):
+    """large tables (up to ~120 entries, several hundred insertions), bursts of 13..64 insertions per on_encoder_recv call
+    (63 and 64 included), relative / duplicate / name-reference indices that need continuation bytes"""
+    variant = rng.choice(['A', 'A', 'B'])
+    blocked = rng.choice([13, 100])
+    n = [0]
+
+    def fld(i, v=b''):
+        return (bytes([97 + (i // 26) % 26, 97 + i % 26]) + (b'x' if i >= 676 else b''), v)
+
+    def fresh():
+        n[0] += 1
+        return fld(n[0] - 1)
+    ops, j, pend = [], 0, []
+    sid0 = rng.choice([0, 252, 16380])
+
+    def flush(k):
+        # one on_encoder_recv call delivering k insertions, then the rest, decode everything, acknowledge
+        nonlocal pend
+        ops.append(rng.choice(['I%d', 'I%d', 'i250', 'I%d']).replace('%d', str(k)))
+        ops.append('I64')
+        ops.extend('B%d' % t for t in pend)
+        ops.append('K99')
+        pend = []
+    target = rng.randint(125, 150) if variant == 'A' else rng.randint(240, 270)
+    bursts = [64, 63] + [rng.randint(13, 62) for _ in range(8)]
+    bi = 0
+    cur = 0
+    while n[0] < target:
+        nf = rng.choice([5, 6, 6, 6])
+        ops.append('E%d:%s' % (sid0 + 4 * j, '.'.join(fstr(fresh()) for _ in range(nf))))
+        pend.append(j)
+        j += 1
+        cur += nf
+        if cur >= bursts[bi % len(bursts)]:
+            flush(bursts[bi % len(bursts)])
+            bi += 1
+            cur = 0
+    flush(64)
+    # re-use of old entries: exact matches (Indexed / Duplicate with large indices), old names with new values (name references)
+    live_lo = max(0, n[0] - 115)
+    for _ in range(rng.randint(2, 4)):
+        fs = []
+        for _ in range(rng.randint(2, 5)):
+            i = rng.randint(live_lo, n[0] - 1)
+            fs.append(fld(i) if rng.random() < 0.6 else fld(i, rng.choice([b'1', b'zz'])))
+        ops.append('E%d:%s' % (sid0 + 4 * j, '.'.join(fstr(f) for f in fs)))
+        pend.append(j)
+        j += 1
+        if rng.random() < 0.5:
+            flush(20)
+    if blocked == 13:
+        # thirteen unacknowledged insertions close the blocked-stream gate: name references become literals with large name indices
+        for _ in range(13):
+            ops.append('E%d:%s' % (sid0 + 4 * j, fstr(fresh())))
+            pend.append(j)
+            j += 1
+        fs = [fld(rng.randint(live_lo, n[0] - 2), b'new') for _ in range(3)]
+        ops.append('E%d:%s' % (sid0 + 4 * j, '.'.join(fstr(f) for f in fs)))
+        pend.append(j)
+        j += 1
+    flush(30)
+    return 'qs 4096 %d %s' % (blocked, ','.join(ops))
+
+
+def _pint(b, pos, nbits):
+    """prefix integer at b[pos]: returns (value, next position) or None when cut"""
+    if pos >= len(b):
+        return None
+    mask = (1 << nbits) - 1
+    v = b[pos] & mask
+    pos += 1
+    if v < mask:
+        return v, pos
+    shift = 0
+    while True:
+        if pos >= len(b):
+            return None
+        c = b[pos]
+        pos += 1
+        v += (c & 0x7f) << shift
+        shift += 7
+        if not c & 0x80:
+            return v, pos
+
+
+def seg_encoder_stream(b):
+    """instruction boundaries and the byte spans of multi-byte prefix integers of an encoder stream"""
+    bounds, ints, pos = [0], [], 0
+    while pos < len(b):
+        first = b[pos]
+        parts = []          # (kind, nbits)
+        if first & 0x80:
+            parts = [('int', 6), ('str', 7)]
+        elif first & 0x40:
+            parts = [('str', 5), ('str', 7)]
+        else:
+            parts = [('int', 5)]
+        p = pos
+        for kind, nb in parts:
+            r = _pint(b, p, nb)
+            if r is None:
+                return bounds, ints
+            v, q = r
+            if q - p >= 2:
+                ints.append((p, q))
+            p = q + (v if kind == 'str' else 0)
+        if p > len(b):
+            return bounds, ints
+        pos = p
+        bounds.append(pos)
+    return bounds, ints
+
+
 def parse_case(case):
     w = case.split()
     ops = [o for o in w[3].split(',') if o]
@@ -199,13 +317,15 @@ class P(Property):
                      'usize = 64 bit; overflow of insert counters (2^62 insertions) excluded by premise',
                      'static table rows are the generated ones (agreement with RFC 9204 App. A is C11)',
                      'prefix-int / Huffman string models of C15 (Model/PrefixInt.v, PrefixString.v, Huffman.v) for the wire comparison only']
-    rule = ('qs: seeded histories of 1..40 field sections over alphabets of 1..4 names x 1..4 values (static-table names and '
-            'full static matches included), capacities {0,1,31,32,33,...,4096} and random 0..4096, blocked limits {0,1,2,3,5,10,100} '
+    rule = ('qs: seeded histories of 1..40 field sections over alphabets of 1..4 names x 1..4 values drawn from 26 names / 18 values '
+            '(static-table names incl. indices >= 63, full static matches, case / prefix / suffix / high-byte near-misses of static rows, '
+            'names of 64 and values of 200 bytes), the big family (up to ~120 table entries, 125..270 insertions, bursts of 13..64 '
+            'insertions per on_encoder_recv, relative / duplicate / name-reference indices with continuation bytes), capacities {0,1,31,32,33,...,4096} and random 0..4096, blocked limits {0,1,2,3,5,10,100} '
             'and random 0..100, 1..3 shared streams or one stream per section; schedules: immediate delivery, late delivery of '
             '0..5 encoder instructions at a time, bursts, no acknowledgements, stream cancellation, out-of-order decoding across '
             'streams, bare decode_header calls; every history ends with a full drain.  After every op the emitted wire '
             '(parsed back with the crate decoders), decode results and table state (inserted, dropped, curr_size, max_size, '
-            'reference counts, blocked count, known received count) of impl and model are compared; the RFC 9204 reference decoder '
+            'FNV digest of the table contents, reference counts, blocked count, blocked_streams map, known received count, per-stream block queue lengths) of impl and model are compared; the RFC 9204 reference decoder '
             'decides ok/blocked independently and decoded lists are compared with the original lists.  qc: the same with Stream '
             'Cancellation (a decoded list must still be the original list; an error instead of blocked is the known finding).  qz: the same with '
             'set_dynamic_table_size in the history (impl = model only).  hp.new / hp.get: prefix arithmetic on grids and random '
@@ -220,6 +340,8 @@ class P(Property):
             out.append(gen_history(rng, nsec=rng.randint(25, 40)))
         for _ in range(n // 10):
             out.append(gen_ahead(rng))
+        for _ in range(max(12, n // 60)):
+            out.append(gen_big(rng))
         for _ in range(n // 5):
             out.append(gen_history(rng, style='bytes'))
         for _ in range(n // 10):
@@ -358,7 +480,7 @@ class P(Property):
             blocked = int(w[2])
             over = False
             for x in ws:
-                mm = re.search(r'/(\d+)\.(\d+)/\d+$', x)
+                mm = re.search(r'/(\d+)\.(\d+)\.[^/]*/[^/]*$', x)
                 if mm and int(mm.group(1)) > blocked:
                     over = True
             h['observation_blocked_count_above_limit'] += over
@@ -366,6 +488,10 @@ class P(Property):
         # section's Required Insert Count across a multiple of 2*max_entries) and instructions cut by byte-granular delivery
         ahead = 0
         cut = 0
+        cut_int = 0
+        max_inc = 0
+        mid_inc = 0
+        big_idx = collections.Counter()
         for (c, i, m, s) in ctx['rows']:
             if not c.startswith('qs '):
                 continue
@@ -374,8 +500,33 @@ class P(Property):
             ops = [o for o in w[3].split(',') if o]
             ws = i.split()[1:]
             dec_ins, req = 0, []
+            stream = b''
+            handed = 0
             for o, x in zip(ops, ws):
                 f = x.split(':')
+                if o[0] == 'E' and len(f) > 7:
+                    if f[6] != '-':
+                        stream += bytes.fromhex(f[6])
+                    for tok in f[4].split(';') + f[3].split(';'):
+                        mm = re.match(r'(U|ID|IS|D|LD|LP|P)(\d+)', tok)
+                        if mm:
+                            v, k = int(mm.group(2)), mm.group(1)
+                            lim = {'U': 31, 'ID': 63, 'IS': 63, 'D': 63, 'LD': 15, 'LP': 7, 'P': 15}[k]
+                            if v >= lim:
+                                big_idx[k] += 1
+                if o[0] in 'Ii' and len(f) > 3:
+                    mm = re.match(r'N(\d+)$', f[2])
+                    if mm:
+                        max_inc = max(max_inc, int(mm.group(1)))
+                        mid_inc += 13 <= int(mm.group(1)) <= 64
+                    bounds, ints = seg_encoder_stream(stream)
+                    done = max(b0 for b0 in bounds if b0 <= handed)
+                    if o[0] == 'i':
+                        handed = min(len(stream), handed + int(o[1:]))
+                        cut_int += any(a < handed < b for a, b in ints)
+                    elif int(o[1:]) > 0:
+                        k0 = bounds.index(done)
+                        handed = bounds[min(len(bounds) - 1, k0 + int(o[1:]))]
                 if o[0] == 'E' and len(f) > 2 and f[1].isdigit():
                     req.append(int(f[1]))
                 elif o[0] in 'Ii' and len(f) > 2 and f[1].isdigit():
@@ -388,11 +539,23 @@ class P(Property):
                         ahead += 1
         h['decodes_ahead_across_wrap_boundary'] = ahead
         h['byte_deliveries_completing_no_insertion'] = cut
+        h['byte_deliveries_ending_inside_a_multibyte_integer_of_an_encoder_instruction'] = cut_int
+        h['largest_insert_count_increment'] = max_inc
+        h['increments_13_to_64'] = mid_inc
+        for k0, v0 in big_idx.items():
+            h['indices_with_continuation_bytes_' + k0] = v0
         viol = []
         if ctx['rows'] and ahead == 0:
             viol.append(('coverage', {'message': 'no qs history decodes a section with the decoder ahead of its RIC across a 2*max_entries boundary'}))
         if ctx['rows'] and cut == 0:
             viol.append(('coverage', {'message': 'no qs history has a byte-granular delivery that ends before an insertion is complete'}))
+        if ctx['rows'] and cut_int == 0:
+            viol.append(('coverage', {'message': 'no byte-granular delivery ended inside a multi-byte integer of an encoder-stream instruction'}))
+        if ctx['rows'] and max_inc < 63:
+            viol.append(('coverage', {'message': 'no on_encoder_recv call delivered 63 or 64 insertions'}))
+        for k0 in ('U', 'ID', 'IS', 'D', 'LD'):
+            if ctx['rows'] and not big_idx.get(k0):
+                viol.append(('coverage', {'message': 'no %s index with a continuation byte was generated' % k0}))
         try:
             os.makedirs(os.path.join(os.path.dirname(os.path.dirname(os.path.dirname(os.path.abspath(__file__)))), 'evidence'), exist_ok=True)
             with open(os.path.join(os.path.dirname(os.path.dirname(os.path.dirname(os.path.abspath(__file__)))), 'notes', 'C20_histograms.json'), 'w') as f:
